@@ -210,20 +210,138 @@ theorem flush_poisoned (p : EmitProg) (hp : emitProgOk p = true) (ds : List Diag
     exact this
 
 /-! ### the lift: a fault that is reached makes the annotated crate faulty -/
+open RF.Gen.ModArms
 
-/-- what the lift needs of a table set: a file with a fault is never accepted, in whatever state the session is -/
+/-- what the lift needs of the parser tables: a file with a fault is never accepted, in whatever state the
+session is; and a call on a path that exists ends in `Ok` or in `ParseError` -/
 def NeverAccepts (pp : ParseProg) : Prop :=
   (∀ (s : Sess) (fp : FileParse), fp.fault = true → (parseFile pp s fp).2 ≠ some .ok) ∧
   (∀ (s : Sess) (fp : FileParse), fp.fault = true → (parseCrate pp s fp).2 ≠ some .ok)
+
+def ExistingIsParseError (pp : ParseProg) : Prop :=
+  ∀ (s : Sess) (fp : FileParse), fp.pathExists = true →
+    (parseFile pp s fp).2 = some .ok ∨ (parseFile pp s fp).2 = some .parseError
+
+/-- what the lift needs of the resolver tables (finite check): a `ParseError` on a candidate or on the default
+file is an error of module resolution whatever else holds; an accepted file with `#![rustfmt::skip]` is left
+out; an accepted file without is taken -/
+def modProgOk (mp : ModProg) : Bool :=
+  [true, false].all (fun sk =>
+    toAltAct (selectM mp.alt (some .parseError) sk true) == .fail &&
+    [true, false].all (fun oe => toDfltAct (selectM mp.dflt (some .parseError) sk oe) == .fail)) &&
+  toAltAct (selectM mp.alt (some .ok) true true) == .skip &&
+  toAltAct (selectM mp.alt (some .ok) false true) == .use &&
+  [true, false].all (fun oe =>
+    toDfltAct (selectM mp.dflt (some .ok) true oe) == .none &&
+    toDfltAct (selectM mp.dflt (some .ok) false oe) == .file)
+
+structure Safe (pp : ParseProg) (mp : ModProg) : Prop where
+  never : NeverAccepts pp
+  existing : ExistingIsParseError pp
+  mods : modProgOk mp = true
 
 theorem retToParse_ok (r : Option Ret) : retToParse r = .ok ↔ r = some .ok := by
   cases r with
   | none => simp [retToParse]
   | some x => cases x <;> simp [retToParse]
 
+theorem fault_existing (fp : FileParse) : (existing fp).fault = fp.fault := rfl
+
+section
+variable {pp : ParseProg} {mp : ModProg} (h : Safe pp mp) (pi : Nat → FileParse)
+include h
+
+theorem mods_alt_err (sk : Bool) : toAltAct (selectM mp.alt (some .parseError) sk true) = .fail := by
+  have := h.mods
+  simp only [modProgOk, List.all_cons, List.all_nil, Bool.and_true, Bool.and_eq_true, beq_iff_eq] at this
+  cases sk <;> simp_all
+theorem mods_dflt_err (sk oe : Bool) : toDfltAct (selectM mp.dflt (some .parseError) sk oe) = .fail := by
+  have := h.mods
+  simp only [modProgOk, List.all_cons, List.all_nil, Bool.and_true, Bool.and_eq_true, beq_iff_eq] at this
+  cases sk <;> cases oe <;> simp_all
+theorem mods_alt_ok (sk : Bool) : toAltAct (selectM mp.alt (some .ok) sk true) = if sk then .skip else .use := by
+  have := h.mods
+  simp only [modProgOk, List.all_cons, List.all_nil, Bool.and_true, Bool.and_eq_true, beq_iff_eq] at this
+  cases sk <;> simp_all
+theorem mods_dflt_ok (sk oe : Bool) : toDfltAct (selectM mp.dflt (some .ok) sk oe) = if sk then .none else .file := by
+  have := h.mods
+  simp only [modProgOk, List.all_cons, List.all_nil, Bool.and_true, Bool.and_eq_true, beq_iff_eq] at this
+  cases sk <;> cases oe <;> simp_all
+
+/-- the decision for one candidate: a fault fails; otherwise accepted-with-skip is left out, accepted is taken -/
+theorem alt_decision (s : Sess) (f : File) :
+    let r := parseFile pp s (existing (pi f.path))
+    let act := toAltAct (selectM mp.alt r.2 f.skipAttr true)
+    ((pi f.path).fault = true → act = .fail) ∧ (act ≠ .fail → act = if f.skipAttr then .skip else .use) := by
+  intro r act
+  have hr := h.existing s (existing (pi f.path)) rfl
+  constructor
+  · intro hf
+    have hne := h.never.1 s (existing (pi f.path)) (by rw [fault_existing]; exact hf)
+    rcases hr with hr | hr
+    · exact absurd hr hne
+    · show toAltAct (selectM mp.alt (parseFile pp s (existing (pi f.path))).2 f.skipAttr true) = .fail
+      rw [hr]; exact mods_alt_err h _
+  · intro hne
+    rcases hr with hr | hr
+    · show toAltAct (selectM mp.alt (parseFile pp s (existing (pi f.path))).2 f.skipAttr true) = _
+      rw [hr]; exact mods_alt_ok h _
+    · exfalso; apply hne
+      show toAltAct (selectM mp.alt (parseFile pp s (existing (pi f.path))).2 f.skipAttr true) = .fail
+      rw [hr]; exact mods_alt_err h _
+
+theorem altDecisions_fault : ∀ (a : Alts) (s : Sess), altsFileFault pi a = true →
+    decsFail (altDecisions pp mp pi a s).1 = true
+  | .nil, s => by simp [altsFileFault]
+  | .cons a0 (.node f m) rest, s => by
+    intro hf
+    simp only [altsFileFault, Bool.or_eq_true] at hf
+    obtain ⟨h1, _⟩ := alt_decision h pi s f
+    simp only [altDecisions]
+    by_cases hact : toAltAct (selectM mp.alt (parseFile pp s (existing (pi f.path))).2 f.skipAttr true) = .fail
+    · simp [hact, decsFail]
+    · rcases hf with hf | hf
+      · exact absurd (h1 hf) hact
+      · simp only [hact, if_false]
+        have := altDecisions_fault rest (parseFile pp s (existing (pi f.path))).1 hf
+        simp only [decsFail, List.any_cons, Bool.or_eq_true] at this ⊢
+        right; exact this
+
+theorem altDecisions_allSkip : ∀ (a : Alts) (s : Sess), altsAllSkip a = true →
+    decsFail (altDecisions pp mp pi a s).1 = false → decsAnyUse (altDecisions pp mp pi a s).1 = false
+  | .nil, s => by simp [altDecisions, decsAnyUse]
+  | .cons a0 (.node f m) rest, s => by
+    intro hs hnf
+    simp only [altsAllSkip, Bool.and_eq_true] at hs
+    obtain ⟨_, h2⟩ := alt_decision h pi s f
+    simp only [altDecisions] at hnf ⊢
+    by_cases hact : toAltAct (selectM mp.alt (parseFile pp s (existing (pi f.path))).2 f.skipAttr true) = .fail
+    · simp [hact, decsFail] at hnf
+    · have hsk := h2 hact
+      have hite : (if f.skipAttr = true then AltAct.skip else AltAct.use) = .skip := by simp [hs.1]
+      rw [hite] at hsk
+      simp only [hact, if_false, decsFail, List.any_cons, Bool.or_eq_false_iff] at hnf
+      simp only [hact, if_false, decsAnyUse, List.any_cons, Bool.or_eq_false_iff]
+      refine ⟨by rw [hsk]; rfl, ?_⟩
+      exact altDecisions_allSkip rest _ hs.2 hnf.2
+
+omit h in
+theorem applyDecs_fail : ∀ (a : Alts) (s : Sess), decsFail (altDecisions pp mp pi a s).1 = true →
+    altsFail (applyDecs a (altDecisions pp mp pi a s).1) = true
+  | .nil, s => by simp [altDecisions, decsFail]
+  | .cons a0 (.node f m) rest, s => by
+    intro hf
+    simp only [altDecisions] at hf ⊢
+    by_cases hact : toAltAct (selectM mp.alt (parseFile pp s (existing (pi f.path))).2 f.skipAttr true) = .fail
+    · simp [hact, applyDecs, altsFail]
+    · simp only [hact, if_false, decsFail, List.any_cons, Bool.or_eq_true, beq_iff_eq] at hf
+      simp only [hact, if_false, applyDecs, altsFail, Bool.or_eq_true, beq_iff_eq]
+      rcases hf with hf | hf
+      · exact hf.elim
+      · right; exact applyDecs_fail rest _ hf
+
 mutual
-theorem annT_fault (pp : ParseProg) (h : NeverAccepts pp) (pi : Nat → FileParse) :
-    ∀ (t : Tree) (s : Sess), faultET pi t = true → faultT (annT pp pi t s).1 = true
+theorem annT_fault : ∀ (t : Tree) (s : Sess), faultET pi t = true → faultT (annT pp mp pi t s).1 = true
   | .node f mods, s => by
     intro hf
     unfold annT
@@ -231,8 +349,8 @@ theorem annT_fault (pp : ParseProg) (h : NeverAccepts pp) (pi : Nat → FilePars
     by_cases hc : (parseFile pp s (pi f.path)).2 = some .ok ∧ f.skipAttr = false
     · simp only [hc, and_self, if_true]
       rcases hf with hf | ⟨_, hf⟩
-      · exact absurd hc.1 (h.1 s _ hf)
-      · have := annM_fault pp h pi mods (parseFile pp s (pi f.path)).1 hf
+      · exact absurd hc.1 (h.never.1 s _ hf)
+      · have := annM_fault mods (parseFile pp s (pi f.path)).1 hf
         simp [faultT, this]
     · simp only [hc, if_false]
       by_cases hr : (parseFile pp s (pi f.path)).2 = some .ok
@@ -241,52 +359,175 @@ theorem annT_fault (pp : ParseProg) (h : NeverAccepts pp) (pi : Nat → FilePars
           | true => rfl
           | false => exact absurd ⟨hr, hsk⟩ hc
         rcases hf with hf | ⟨hf, _⟩
-        · exact absurd hr (h.1 s _ hf)
+        · exact absurd hr (h.never.1 s _ hf)
         · rw [hs] at hf; cases hf
       · have : retToParse (parseFile pp s (pi f.path)).2 ≠ .ok := fun e => hr ((retToParse_ok _).1 e)
         simp [faultT, this]
-theorem annM_fault (pp : ParseProg) (h : NeverAccepts pp) (pi : Nat → FileParse) :
-    ∀ (m : Mods) (s : Sess), faultEM pi m = true → faultM (annM pp pi m s).1 = true
+theorem annM_fault : ∀ (m : Mods) (s : Sess), faultEM pi m = true → faultM (annM pp mp pi m s).1 = true
   | .nil, s => by simp [faultEM]
   | .found t rest, s => by
     intro hf
     unfold annM
     simp only [faultEM, Bool.or_eq_true] at hf
-    by_cases hc : faultT (annT pp pi t s).1 = true
+    by_cases hc : faultT (annT pp mp pi t s).1 = true
     · simp [hc, faultM]
     · simp only [hc, Bool.false_eq_true, if_false]
       rcases hf with hf | hf
-      · exact absurd (annT_fault pp h pi t s hf) hc
-      · simp [faultM, annM_fault pp h pi rest _ hf]
+      · exact absurd (annT_fault t s hf) hc
+      · simp [faultM, annM_fault rest _ hf]
   | .skipped rest, s => by
     intro hf
     unfold annM
     simp only [faultEM] at hf
-    simp [faultM, annM_fault pp h pi rest s hf]
+    simp [faultM, annM_fault rest s hf]
   | .notFound rest, s => by simp [annM, faultM]
   | .multiple rest, s => by simp [annM, faultM]
+  | .cfgAttr alts dk a0 (.node df dm) ghost rest, s => by
+    intro hf
+    simp only [faultEM, Bool.or_eq_true] at hf
+    unfold annM
+    by_cases hdf : decsFail (altDecisions pp mp pi alts s).1 = true
+    · simp [hdf, faultM]
+    · have hnf : decsFail (altDecisions pp mp pi alts s).1 = false := by simpa using hdf
+      have hnoalt : altsFileFault pi alts = false := by
+        cases hx : altsFileFault pi alts with
+        | false => rfl
+        | true => exact absurd (altDecisions_fault h pi alts s hx) hdf
+      simp only [hnoalt, Bool.false_eq_true, false_or] at hf
+      simp only [hnf, Bool.false_eq_true, if_false]
+      have hex := h.existing (altDecisions pp mp pi alts s).2 (existing (pi df.path)) rfl
+      cases dk with
+      | found =>
+        simp only [if_true] at hf ⊢
+        rcases hex with hex | hex
+        · -- the default file is accepted
+          have hnofault : (pi df.path).fault = false := by
+            cases hx : (pi df.path).fault with
+            | false => rfl
+            | true => exact absurd hex (h.never.1 _ _ (by rw [fault_existing]; exact hx))
+          have hact := mods_dflt_ok h df.skipAttr (!decsAnyUse (altDecisions pp mp pi alts s).1)
+          rw [← hex] at hact
+          simp only [hnofault, Bool.false_or, Bool.or_eq_true, Bool.and_eq_true, Bool.not_eq_true'] at hf
+          cases hs : df.skipAttr with
+          | true =>
+            simp only [hs, if_true] at hact
+            simp only [hs] at hf
+            rw [hact]
+            simp only []
+            have hrest : faultEM pi rest = true := by
+              rcases hf with ⟨hf, _⟩ | ⟨_, hf⟩
+              · cases hf
+              · exact hf
+            simp [faultM, annM_fault rest _ hrest]
+          | false =>
+            simp only [hs, Bool.false_eq_true, if_false] at hact
+            simp only [hs] at hf
+            rw [hact]
+            simp only []
+            have hf' : faultEA pi alts = true ∨ faultEM pi dm = true ∨ faultEM pi rest = true := by
+              rcases hf with ⟨_, hf⟩ | ⟨hf, _⟩
+              · rcases hf with (hf | hf) | hf
+                · exact Or.inl hf
+                · exact Or.inr (Or.inl hf)
+                · exact Or.inr (Or.inr hf)
+              · cases hf
+            by_cases hc : faultA (annA pp mp pi alts (altDecisions pp mp pi alts s).1 (parseFile pp (altDecisions pp mp pi alts s).2 (existing (pi df.path))).1).1 = true
+            · simp [hc, faultM]
+            · simp only [hc, Bool.false_eq_true, if_false]
+              rcases hf' with hf' | hf' | hf'
+              · exact absurd (annA_fault alts s _ hnf hf') hc
+              · simp [faultM, annM_fault dm _ hf']
+              · by_cases hd : faultM (annM pp mp pi dm (annA pp mp pi alts (altDecisions pp mp pi alts s).1 (parseFile pp (altDecisions pp mp pi alts s).2 (existing (pi df.path))).1).2).1 = true
+                · simp [hd, faultM]
+                · simp only [hd, Bool.false_eq_true, if_false]
+                  simp [faultM, annM_fault rest _ hf']
+        · -- the default file is a `ParseError`
+          have hact := mods_dflt_err h df.skipAttr (!decsAnyUse (altDecisions pp mp pi alts s).1)
+          rw [← hex] at hact
+          rw [hact]
+          simp [faultM]
+      | notFound =>
+        simp only [Bool.or_eq_true] at hf
+        by_cases hoe : decsAnyUse (altDecisions pp mp pi alts s).1 = true
+        · simp only [hoe, Bool.not_true, Bool.false_eq_true, if_false, reduceCtorEq]
+          by_cases hc : faultA (annA pp mp pi alts (altDecisions pp mp pi alts s).1 (altDecisions pp mp pi alts s).2).1 = true
+          · simp [hc, faultM]
+          · simp only [hc, Bool.false_eq_true, if_false]
+            rcases hf with (hf | hf) | hf
+            · have := altDecisions_allSkip h pi alts s hf hnf
+              rw [hoe] at this; cases this
+            · exact absurd (annA_fault alts s _ hnf hf) hc
+            · simp [faultM, annM_fault rest _ hf]
+        · simp [hoe, faultM]
+      | multiple =>
+        simp only [Bool.or_eq_true] at hf
+        by_cases hoe : decsAnyUse (altDecisions pp mp pi alts s).1 = true
+        · simp only [hoe, Bool.not_true, Bool.false_eq_true, if_false, reduceCtorEq]
+          by_cases hc : faultA (annA pp mp pi alts (altDecisions pp mp pi alts s).1 (altDecisions pp mp pi alts s).2).1 = true
+          · simp [hc, faultM]
+          · simp only [hc, Bool.false_eq_true, if_false]
+            rcases hf with (hf | hf) | hf
+            · have := altDecisions_allSkip h pi alts s hf hnf
+              rw [hoe] at this; cases this
+            · exact absurd (annA_fault alts s _ hnf hf) hc
+            · simp [faultM, annM_fault rest _ hf]
+        · simp [hoe, faultM]
+theorem annA_fault : ∀ (a : Alts) (s s1 : Sess), decsFail (altDecisions pp mp pi a s).1 = false →
+    faultEA pi a = true → faultA (annA pp mp pi a (altDecisions pp mp pi a s).1 s1).1 = true
+  | .nil, s, s1 => by simp [faultEA]
+  | .cons a0 (.node f m) rest, s, s1 => by
+    intro hnf hf
+    simp only [faultEA, Bool.or_eq_true, Bool.and_eq_true, Bool.not_eq_true'] at hf
+    obtain ⟨_, h2⟩ := alt_decision h pi s f
+    simp only [altDecisions] at hnf ⊢
+    by_cases hact : toAltAct (selectM mp.alt (parseFile pp s (existing (pi f.path))).2 f.skipAttr true) = .fail
+    · simp [hact, decsFail] at hnf
+    · simp only [hact, if_false, decsFail, List.any_cons, Bool.or_eq_false_iff] at hnf
+      simp only [hact, if_false]
+      have hsk := h2 hact
+      generalize toAltAct (selectM mp.alt (parseFile pp s (existing (pi f.path))).2 f.skipAttr true) = act at hsk hact hnf ⊢
+      cases act with
+      | fail => exact absurd rfl hact
+      | use =>
+        simp only [annA]
+        by_cases hc : faultM (annM pp mp pi m s1).1 = true
+        · simp [hc, faultA]
+        · simp only [hc, Bool.false_eq_true, if_false]
+          rcases hf with ⟨_, hf⟩ | hf
+          · exact absurd (annM_fault m s1 hf) hc
+          · have := annA_fault rest (parseFile pp s (existing (pi f.path))).1 (annM pp mp pi m s1).2 hnf.2 hf
+            simp [faultA, this]
+      | skip =>
+        simp only [annA]
+        rcases hf with ⟨hs, _⟩ | hf
+        · rw [hs] at hsk; simp at hsk
+        · have := annA_fault rest (parseFile pp s (existing (pi f.path))).1 s1 hnf.2 hf
+          simp [faultA, this]
 end
 
-theorem annotateRoot_node (pp : ParseProg) (pi : Nat → FileParse) (cfg : Cfg) (f : File) (mods : Mods) :
-    annotateRoot pp pi cfg (.node f mods) =
+end
+
+theorem annotateRoot_node (pp : ParseProg) (mp : ModProg) (pi : Nat → FileParse) (cfg : Cfg) (f : File) (mods : Mods) :
+    annotateRoot pp mp pi cfg (.node f mods) =
       if (parseCrate pp Sess.init (pi f.path)).2 = some .ok ∧ cfg.skipChildren = false then
         .node { f with parse := retToParse (parseCrate pp Sess.init (pi f.path)).2 }
-          (annM pp pi mods (parseCrate pp Sess.init (pi f.path)).1).1
+          (annM pp mp pi mods (parseCrate pp Sess.init (pi f.path)).1).1
       else .node { f with parse := retToParse (parseCrate pp Sess.init (pi f.path)).2 } mods := rfl
 
-theorem annotateRoot_file (pp : ParseProg) (pi : Nat → FileParse) (cfg : Cfg) (root : Tree) :
-    (annotateRoot pp pi cfg root).file.ignored = root.file.ignored ∧
-    (annotateRoot pp pi cfg root).file.path = root.file.path := by
+theorem annotateRoot_file (pp : ParseProg) (mp : ModProg) (pi : Nat → FileParse) (cfg : Cfg) (root : Tree) :
+    (annotateRoot pp mp pi cfg root).file.ignored = root.file.ignored ∧
+    (annotateRoot pp mp pi cfg root).file.path = root.file.path := by
   cases root with
   | node f mods =>
     rw [annotateRoot_node]
     split <;> simp [Tree.file]
 
-/-- **the lift**: if the crate cannot be processed in the sense of `faultyE` (a reachable file with a fault,
-or a `mod` without a file or with two), the crate annotated by the bookkeeping is `faulty` in the sense of
-`RF.Project`, whatever the diagnostics of the other files are and in whatever order they are met. -/
-theorem annotateRoot_faulty (pp : ParseProg) (h : NeverAccepts pp) (pi : Nat → FileParse) (cfg : Cfg) (root : Tree)
-    (hf : faultyE pi cfg root = true) : faulty cfg (annotateRoot pp pi cfg root) = true := by
+/-- **the lift**: if the crate cannot be processed in the sense of `faultyE` (a reachable file with a fault —
+also a candidate of a nested `#[cfg_attr(.., path = "..")]`, or anything below one that is taken —, or a `mod`
+without a file or with two), the crate annotated by the tables is `faulty` in the sense of `RF.Project`,
+whatever the diagnostics of the other files are and in whatever order they are met. -/
+theorem annotateRoot_faulty (pp : ParseProg) (mp : ModProg) (h : Safe pp mp) (pi : Nat → FileParse) (cfg : Cfg) (root : Tree)
+    (hf : faultyE pi cfg root = true) : faulty cfg (annotateRoot pp mp pi cfg root) = true := by
   cases root with
   | node f mods =>
     simp only [faultyE, Tree.file, Tree.mods, Bool.or_eq_true, Bool.and_eq_true, Bool.not_eq_true'] at hf
@@ -294,8 +535,8 @@ theorem annotateRoot_faulty (pp : ParseProg) (h : NeverAccepts pp) (pi : Nat →
     by_cases hc : (parseCrate pp Sess.init (pi f.path)).2 = some .ok ∧ cfg.skipChildren = false
     · rw [if_pos hc]
       rcases hf with hf | ⟨_, hf⟩
-      · exact absurd hc.1 (h.2 _ _ hf)
-      · have := annM_fault pp h pi mods (parseCrate pp Sess.init (pi f.path)).1 hf
+      · exact absurd hc.1 (h.never.2 _ _ hf)
+      · have := annM_fault h pi mods (parseCrate pp Sess.init (pi f.path)).1 hf
         simp [faulty, Tree.file, Tree.mods, this, hc.2]
     · rw [if_neg hc]
       by_cases hr : (parseCrate pp Sess.init (pi f.path)).2 = some .ok
@@ -304,7 +545,7 @@ theorem annotateRoot_faulty (pp : ParseProg) (h : NeverAccepts pp) (pi : Nat →
           | true => rfl
           | false => exact absurd ⟨hr, hsk⟩ hc
         rcases hf with hf | ⟨hf, _⟩
-        · exact absurd hr (h.2 _ _ hf)
+        · exact absurd hr (h.never.2 _ _ hf)
         · rw [hs] at hf; cases hf
       · have : retToParse (parseCrate pp Sess.init (pi f.path)).2 ≠ .ok := fun e => hr ((retToParse_ok _).1 e)
         simp [faulty, Tree.file, this]
